@@ -548,6 +548,66 @@ static void fault_enum(const char *name, uint64_t cs, unsigned nops, bool pairs,
 	rec.notes[mode] = strf("history seed %llu with %llu map() attempts: every single attempt failed%s", (unsigned long long)cs, (unsigned long long)M, pairs ? ", every pair (i, i+1..i+12) and every burst of 3" : "");
 }
 
+// ------------------------------------------------------------------ requests of 2^31 .. 2^36 bytes
+// A light policy (address space only: MAP_NORESERVE, nothing but the frame header and the first/last byte of the block is touched)
+// so that sizes beyond 32 bits can be requested: the size arithmetic of the large-block path must be done in size_t throughout.
+struct HugePolicy {
+	static constexpr size_t pagesize = 0x1000;
+	struct M { void *raw; size_t rawlen; size_t len; };
+	std::map<uintptr_t, M> maps;
+	uint64_t bad_unmap = 0;
+	uintptr_t map(size_t len, size_t align) {
+		size_t rawlen = len + align;
+		void *raw = mmap(nullptr, rawlen, PROT_READ | PROT_WRITE, MAP_PRIVATE | MAP_ANONYMOUS | MAP_NORESERVE, -1, 0);
+		if(raw == MAP_FAILED) return 0;
+		uintptr_t base = ((uintptr_t)raw + align - 1) & ~(uintptr_t)(align - 1);
+		maps[base] = {raw, rawlen, len};
+		return base;
+	}
+	void unmap(uintptr_t base, size_t len) {
+		auto it = maps.find(base);
+		if(it == maps.end() || it->second.len != len) { bad_unmap++; return; }
+		munmap(it->second.raw, it->second.rawlen); maps.erase(it);
+	}
+};
+static void huge_requests() {
+	if(!want_mode("huge") || g_prop == "C04") return;
+	static const size_t sizes[] = {(size_t(1) << 31) - 1, size_t(1) << 31, (size_t(1) << 32) - 4096, (size_t(1) << 32) - 1, size_t(1) << 32, (size_t(1) << 32) + 12345, (size_t(1) << 33) + 1, (size_t(3) << 32) + 4097, size_t(1) << 36};
+	long long idx = 0;
+	for(size_t n : sizes) for(int via_realloc = 0; via_realloc < 2; via_realloc++) {
+		long long my = idx++;
+		if(my % opt.nshards != opt.shard || !want_case(my)) continue;
+		begin_case("huge", my);
+		case_detail("%s of %zu bytes", via_realloc ? "realloc(small block -> huge)" : "allocate", n);
+		g_case_bad = false; g_trace.clear();
+		guarded(g_prop.c_str(), [&] {
+			HugePolicy pol;
+			frg::slab_pool<HugePolicy, SeqMutex> pool(pol);
+			void *small = pool.allocate(100), *seed = pool.allocate(64); // (map the slabs of both small classes first)
+			size_t pages0 = pool.numUsedPages(), maps0 = pol.maps.size();
+			void *p = via_realloc ? pool.realloc(seed, n) : pool.allocate(n);
+			if(!via_realloc) pool.free(seed);
+			if(!p) { count("huge_requests_refused_by_mmap"); pool.free(small); if(via_realloc) pool.free(seed); for(auto &kv : pol.maps) munmap(kv.second.raw, kv.second.rawlen); return; } // the address space was not available: nothing to observe
+			uintptr_t a = (uintptr_t)p;
+			size_t s = pool.get_size(p);
+			if(s < n) flag("C01", "too-small", strf("a request of %zu bytes returned a block of reported size %zu", n, s));
+			bool inside = false; for(auto &kv : pol.maps) if(a >= kv.first && a + n <= kv.first + kv.second.len && a + n > a) inside = true;
+			if(!inside) flag("C01", "outside-mapping", strf("a request of %zu bytes returned %p, which does not lie wholly inside memory obtained from the policy (largest mapping asked for: %zu bytes)", n, p, [&] { size_t m = 0; for(auto &kv : pol.maps) m = std::max(m, kv.second.len); return m; }()));
+			size_t pages1 = pool.numUsedPages();
+			if(pages1 - pages0 < n / HugePolicy::pagesize) flag("C03", "pages-not-raised", strf("numUsedPages() rose by %zu pages for a block of %zu bytes (%zu pages)", pages1 - pages0, n, n / HugePolicy::pagesize));
+			if(inside && !g_case_bad) { ((volatile uint8_t *)p)[0] = 0x5a; ((volatile uint8_t *)p)[n - 1] = 0xa5; if(((volatile uint8_t *)p)[0] != 0x5a) flag("C02", "content-changed", "first byte of a huge block"); }
+			pool.free(p);
+			if(pool.numUsedPages() != pages0) flag("C03", "pages-drift", strf("numUsedPages() is %zu after the huge block was freed, %zu before it was allocated", pool.numUsedPages(), pages0));
+			if(pol.bad_unmap) flag("C03", "protocol:unmap-length", "unmap of the huge reservation with a base/length that map() was not asked for");
+			if(pol.maps.size() != maps0) flag("C03", "protocol:large-left-mapped", strf("%zu mappings remain after the huge block was freed, %zu (slabs) existed before", pol.maps.size(), maps0));
+			pool.free(small);
+			for(auto &kv : pol.maps) munmap(kv.second.raw, kv.second.rawlen);
+		});
+		note_distinct(mix(hash_str("huge"), n * 2 + via_realloc)); count("huge_requests");
+	}
+	sample("huge: allocate / realloc-to of 2^31-1, 2^31, 2^32-4096, 2^32-1, 2^32, 2^32+12345, 2^33+1, 3*2^32+4097, 2^36 bytes on an address-space-only policy: reported size, containment, page accounting, unmap pairing");
+}
+
 int main(int argc, char **argv) {
 	parse_args(argc, argv, "c01_slab");
 	for(const char *p : {"C01", "C02", "C03", "C04"}) if(opt.replay_arg.find(std::string("prop=") + p) != std::string::npos) g_prop = p;
@@ -557,6 +617,7 @@ int main(int argc, char **argv) {
 		"distinct = (configuration, history seed, injected fault set)";
 	bool t = opt.thorough();
 	using SM = SeqMutex;
+	huge_requests();
 	if(g_prop != "C04") {
 		uint64_t n = scaled(6, 40); unsigned ops = t ? 4000 : 1500;
 		run_cfg<CfgDefault<false, true>, SM>("default/unaligned/poison", n, ops);
